@@ -142,7 +142,15 @@ func VerifHarness_C13_O1() {
 // validator-set history from the anchor on must equal the full-history nodes'.
 // The iteration order of the frame's peer-set history during the reset (a Go
 // map) is a shape case.
-func VerifHarness_C13_O2() {
+func VerifHarness_C13_O2() { verifC13Joiner(false) }
+
+// C13/O4 — as O2, and a FURTHER membership change (a join request of a fifth
+// peer, which never becomes active) is committed after the joiner's reset: the
+// set the joiner derives from it must be derived from the set the anchor
+// carried, not from what the joiner knew before.
+func VerifHarness_C13_O4() { verifC13Joiner(true) }
+
+func verifC13Joiner(secondJoin bool) {
 	s := verifNewSys(3)
 	// the joiner: a core of its own, not in the genesis set
 	jp := verifPeer(3)
@@ -163,7 +171,12 @@ func VerifHarness_C13_O2() {
 	itx := hg.NewInternalTransactionJoin(*jp)
 	ih, _ := itx.Body.Hash()
 	itx.Signature = verifSignature(verifKey(3), ih, true)
-	phaseA := []int{48, 66, 84}[verifChoice("resetMoment", 3)]
+	phaseA := 84
+	if secondJoin {
+		phaseA = []int{66, 84}[verifChoice("resetMoment", 2)]
+	} else {
+		phaseA = []int{48, 66, 84}[verifChoice("resetMoment", 3)]
+	}
 	for st := 0; st < phaseA; st++ {
 		to := st % 3
 		from := (to + 1 + (st/3)%2) % 3
@@ -187,7 +200,9 @@ func VerifHarness_C13_O2() {
 	}
 	anchor := block.Index()
 	b2, f2 := verifTransportCopyBlock(block), verifTransportCopyFrame(frame)
-	verifMapOrder("peerSetHistoryOrder", 2)
+	if !secondJoin {
+		verifMapOrder("peerSetHistoryOrder", 2)
+	}
 	err = jn.c.fastForward(b2, f2)
 	verifAssert("honest-anchor-accepted-by-the-joiner", err == nil)
 	if err != nil {
@@ -200,10 +215,21 @@ func VerifHarness_C13_O2() {
 	s.txSeq = append(s.txSeq, 0)
 	// a validator may go quiet for a while after the reset (its roots must then
 	// come from its last consensus event on every node alike)
-	quiet := verifChoice("validator2QuietAfterReset", 2) == 1
-	for st := 0; st < 72; st++ {
+	quiet := !secondJoin && verifChoice("validator2QuietAfterReset", 2) == 1
+	phaseB := 72
+	if secondJoin {
+		phaseB = 120
+	}
+	for st := 0; st < phaseB; st++ {
 		to := (3 + st) % 4
 		from := (to + 1 + (st/4)%3) % 4
+		if secondJoin && st == 9 {
+			p5 := verifPeer(4)
+			itx2 := hg.NewInternalTransactionJoin(*p5)
+			h2, _ := itx2.Body.Hash()
+			itx2.Signature = verifSignature(verifKey(4), h2, true)
+			s.nodes[1].c.addInternalTransaction(itx2)
+		}
 		if quiet && st < 40 && (to == 2 || from == 2) {
 			continue
 		}
@@ -241,7 +267,24 @@ func VerifHarness_C13_O2() {
 	last := s.nodes[0].c.hg.Store.LastRound()
 	a, _ := jn.c.hg.Store.GetPeerSet(last)
 	b, _ := s.nodes[0].c.hg.Store.GetPeerSet(last)
-	verifAssert("joiner-uses-the-same-validator-set-for-the-latest-round", a != nil && b != nil && len(a.Peers) == len(b.Peers) && len(a.Peers) == 4)
+	want := 4
+	if secondJoin {
+		want = 5
+		rr2 := -1
+		for _, blk := range s.nodes[0].blocks {
+			for _, it := range blk.InternalTransactions() {
+				if it.Body.Peer.PubKeyHex == verifPeer(4).PubKeyHex {
+					rr2 = blk.RoundReceived()
+				}
+			}
+		}
+		if rr2 >= 0 && last >= rr2+6 {
+			verifReach("second-join-effective-on-the-full-history-nodes")
+		} else {
+			want = 4
+		}
+	}
+	verifAssert("joiner-uses-the-same-validator-set-for-the-latest-round", a != nil && b != nil && len(a.Peers) == len(b.Peers) && len(a.Peers) == want)
 	if len(jn.blocks) >= 1 {
 		verifReach("joiner-delivered-blocks-after-the-reset")
 	}
